@@ -137,6 +137,9 @@ func Report[C any](t *testing.T, rec *ev.Recorder, check string, c C, f *Fail) b
 	if f = Filter(rec, f); f == nil {
 		return false
 	}
+	if survey(rec, check, c, f) {
+		return false
+	}
 	p := WriteReplay(rec, check, c, f)
 	rec.Violation(p, check+": "+f.Msg)
 	t.Errorf("%s: %s", check, f.Msg)
@@ -160,6 +163,9 @@ func Run[C any](t *testing.T, rec *ev.Recorder, chk Check[C], n int, salt uint64
 		rapid.Check(st, func(rt *rapid.T) {
 			c := chk.Gen(rt)
 			f := Filter(rec, chk.Eval(c))
+			if f != nil && survey(rec, chk.Name, c, f) {
+				f = nil
+			}
 			if f != nil {
 				lastC, lastF = c, f
 				rt.Fatalf("%s", f.Msg)
@@ -251,4 +257,35 @@ func RegressDir(t *testing.T, rec *ev.Recorder) {
 			t.Errorf("regression file %s fails: %s", m, f.Msg)
 		}
 	}
+}
+
+var surveySeen = map[string]bool{}
+
+// survey (VERIF_SURVEY=1, development aid only, never used by the registered
+// commands) lists every distinct failure signature instead of stopping at the
+// first one.
+func survey[C any](rec *ev.Recorder, check string, c C, f *Fail) bool {
+	if os.Getenv("VERIF_SURVEY") == "" {
+		return false
+	}
+	k := f.Key
+	if k == "" {
+		k = firstLine(f.Msg)
+	}
+	if !surveySeen[k] {
+		surveySeen[k] = true
+		p := WriteReplay(rec, check, c, f)
+		fmt.Printf("\nSURVEY key=%s replay=%s\n   %s\n", k, p, firstLine(f.Msg))
+	}
+	return true
+}
+
+func firstLine(s string) string {
+	if i := strings.IndexByte(s, '\n'); i >= 0 {
+		s = s[:i]
+	}
+	if len(s) > 300 {
+		s = s[:300]
+	}
+	return s
 }
